@@ -846,12 +846,21 @@ func derives(v ssa.Value, opts flowOpts, pred func(ssa.Value) bool) bool {
 				return found
 			}
 		case *ssa.Alloc:
-			// a variable cell: everything stored into it
+			// a variable cell: everything stored into it, its fields or its elements
 			if refs := t.Referrers(); refs != nil {
 				for _, r := range *refs {
-					if st, ok := r.(*ssa.Store); ok && st.Addr == ssa.Value(t) {
-						if walk(st.Val) {
+					switch x := r.(type) {
+					case *ssa.Store:
+						if x.Addr == ssa.Value(t) && walk(x.Val) {
 							return true
+						}
+					case *ssa.FieldAddr, *ssa.IndexAddr:
+						if srefs := x.(ssa.Value).Referrers(); srefs != nil {
+							for _, sr := range *srefs {
+								if st, ok := sr.(*ssa.Store); ok && st.Addr == x.(ssa.Value) && walk(st.Val) {
+									return true
+								}
+							}
 						}
 					}
 				}
